@@ -1377,3 +1377,13 @@ Corollary trace_is_run P presume plan_of D dev s evs :
   obs_of (trace P presume plan_of D dev s evs) = snd (run P presume plan_of D dev s evs) /\
   evs_of (trace P presume plan_of D dev s evs) = evs.
 Proof. split; [apply trace_obs | apply trace_evs]. Qed.
+
+(* every reachable engine state satisfies the whole invariant; in particular interruption records never fail *)
+Corollary reachable_R P presume plan_of D dev d paus stag rec evs :
+  R P D (fst (run P presume plan_of D dev (init P D d paus stag rec) evs))
+        (mon_run mon0 (trace P presume plan_of D dev (init P D d paus stag rec) evs)).
+Proof. apply run_R. apply R_init. Qed.
+
+Corollary reachable_bintr_ok P presume plan_of D dev d paus stag rec evs :
+  bintr_ok (bundlers P D (fst (run P presume plan_of D dev (init P D d paus stag rec) evs))) = true.
+Proof. destruct (reachable_R P presume plan_of D dev d paus stag rec evs) as [[(_ & _ & _ & _ & _ & H) _] _]. exact H. Qed.
